@@ -34,7 +34,11 @@ def field_meta(ch, rank, carrier, cfg, salt, order=None, comma=False, sp=None):
     sp = salt % 4 if sp is None else sp
     order = (salt // 4) % 2 if order is None else order
     parts = []
-    if ch == 'i':
+    if ch == 'x':
+        parts = ['ignore', 'method(%s)' % ('pcmp_poison' if cfg == 'PO' else 'cmp_poison')]
+        if rank is not None:
+            parts.append(rank_text(rank, sp))
+    elif ch == 'i':
         if rank is None:
             return IGN[salt % len(IGN)].format(T=carrier)
         parts = ['ignore', rank_text(rank, sp)]
@@ -82,9 +86,9 @@ def build(shape, focus, assign, ranks, cfg, ctx='alone', opts=None, tag=''):
             salt += 1 + (rk or 0) % 3
             o = opts or {}
             own = field_meta(ch, rk, carrier, cfg, salt, o.get('order'), o.get('comma', False), o.get('sp'))
-            t.append('I' if ch == 'i' else sc)
+            t.append('I' if ch in 'ix' else sc)
             a.append(place(own, 'Hash(ignore)', ctx))
-            d.append(['I(0)', 'I(1)'] if ch == 'i' else dom)
+            d.append(['I(0)', 'I(1)'] if ch in 'ix' else dom)
             pl.append((ch, rk if rk is not None else MIN + fi, fi))
         tys.append(t)
         fattrs.append(a)
@@ -103,9 +107,9 @@ def build(shape, focus, assign, ranks, cfg, ctx='alone', opts=None, tag=''):
     arms = []
     for vi, f in enumerate(shape.variants):
         pl = plan[vi]
-        ab = ['_' if ch == 'i' else 'a%d' % i for (ch, _, i) in pl]
-        bb = ['_' if ch == 'i' else 'b%d' % i for (ch, _, i) in pl]
-        steps = [term(ch, cfg, 'a%d' % i, 'b%d' % i) for (ch, rk, i) in sorted(pl, key=lambda x: x[1]) if ch != 'i']
+        ab = ['_' if ch in 'ix' else 'a%d' % i for (ch, _, i) in pl]
+        bb = ['_' if ch in 'ix' else 'b%d' % i for (ch, _, i) in pl]
+        steps = [term(ch, cfg, 'a%d' % i, 'b%d' % i) for (ch, rk, i) in sorted(pl, key=lambda x: x[1]) if ch not in 'ix']
         arms.append('        (%s, %s) => lex(&[%s]),\n' % (S.pattern(shape, vi, ab), S.pattern(shape, vi, bb), ', '.join(steps)))
     if shape.kind == 'enum' and len(shape.variants) > 1:
         vidx = ''.join('            %s => %d,\n' % (S.pattern(shape, vi, ['_'] * f.n), vi) for vi, f in enumerate(shape.variants))
@@ -146,7 +150,7 @@ def rank_assignments(n, rset):
 
 def generate(tier):
     cases = []
-    full = [(1, 'ciml', (None, -1, 0, 1)), (2, 'ciml', (None, -1, 0, 1))]
+    full = [(1, 'cimlx', (None, -1, 0, 1)), (2, 'ciml', (None, -1, 0, 1)), (2, 'cx', (None, 1))]
     if tier != 'quick':
         full.append((3, 'cim', (None, -1, 1)))
     else:
